@@ -87,7 +87,7 @@ func NewSched(seed uint64, stick float64, yieldProb float64) *Sched {
 		rng:       rand.New(rand.NewPCG(seed, 0x5eed)),
 		seed:      seed,
 		stick:     stick,
-		MaxStep:   200000,
+		MaxStep:   50000000, // a backstop only: deadlocks are detected exactly, spinning by the supervisor's watchdog
 		YieldProb: yieldProb,
 	}
 }
@@ -301,6 +301,22 @@ func (s *Sched) Yield(where string) {
 	s.park(t, tsParked, where)
 }
 
+// Park implements simhook.Scheduler: a mandatory scheduling point.
+func (s *Sched) Park(where string) {
+	t := s.cur()
+	if t == nil {
+		return
+	}
+	s.mu.Lock()
+	if s.aborted {
+		s.mu.Unlock()
+		return
+	}
+	t.want = nil
+	s.mu.Unlock()
+	s.park(t, tsParked, where)
+}
+
 // Sleep advances the simulated clock on behalf of a task.
 func (s *Sched) Sleep(d time.Duration) {
 	t := s.cur()
@@ -423,7 +439,11 @@ func (s *Sched) Loop(root *Task) {
 		}
 		pick.state = tsRunning
 		if s.traceOn {
-			s.trace = append(s.trace, pick.Name+"/"+pick.where)
+			var rn []string
+			for _, t := range r {
+				rn = append(rn, t.Name+"@"+t.where)
+			}
+			s.trace = append(s.trace, pick.Name+"/"+pick.where+" of ["+strings.Join(rn, " ")+"]")
 		}
 		s.mu.Unlock()
 		if d > 0 {
